@@ -19,6 +19,9 @@ def units(tier):
         us.append(Unit(D.PTRRoundTrip, {'len_di': n}))
     us += [Unit(DT.DRDateRoundTrip), Unit(DT.VDDateRoundTrip), Unit(E.EntryRoundTrip), Unit(UT.UDFTimestampRoundTrip), Unit(E.BootInfoTableParse)]
     us.append(Unit(H.BRRoundTrip))
+    from contracts import isohybrid as IHC
+    for heads, sectors in ((64, 32), (255, 63), (1, 1), (256, 17)):
+        us.append(Unit(IHC.IsoHybridRoundTrip, {'heads': heads, 'sectors': sectors}))
     for p in (0, 1, 2, 0xef):
         us.append(Unit(E.ValidationRoundTrip, {'platform': p}))
     for f in ([0, 1, 0x0e, 0x7f] if tier == 'quick' else list(range(128))):
@@ -28,6 +31,13 @@ def units(tier):
     from contracts import fidelity as F
     for s in sorted(F.SCRIPTS_ALL) + F.random_names(tier):
         us.append(Unit(F.Reopened, {'script': s, 'edit': False}))
+    # El Torito and hybrid images: write -> open -> write is the identity
+    from contracts import boot as B
+    for h in ('basic', 'info-table', 'sections', 'subdir-rr'):
+        us.append(Unit(B.BootImage, {'history': h, 'reopen': True}))
+    for v in sorted(B.HYBRIDS):
+        if not v.startswith('efi'):
+            us.append(Unit(B.HybridImage, {'variant': v, 'reopen': True}))
     for s in sorted(F.UDF_SCRIPTS) + F.random_udf_names(tier):
         us.append(Unit(F.ReopenedUDF, {'script': s}))
     return us
